@@ -15,7 +15,8 @@ M31 == 2147483647                  \* 2^31 - 1
 Sizes == { [size |-> M31, sizes |-> <<>>],                     \* constant, maximal
            [size |-> 1073741824, sizes |-> <<>>],              \* constant 2^30
            [size |-> 0, sizes |-> <<M31, M31, M31, 1, M31>>],  \* per sample
-           [size |-> 0, sizes |-> <<M31, 0, M31, M31, 7>>] }
+           [size |-> 0, sizes |-> <<M31, 0, M31, M31, 7>>],
+           [size |-> 0, sizes |-> <<M31, 1, 2, 3, 7>>] }              \* only the first is huge: the others are read (times inside a run)
 Chunkings == { <<5>>, <<4, 1>>, <<2, 3>>, <<1, 4>> }
 StscOf(spc) == LET RECURSIVE R(_, _)
                    R(c, acc) == IF c > Len(spc) THEN acc
